@@ -443,6 +443,10 @@ func PowInt(a Expr, k int) Expr {
 		}
 		return r
 	}
+	// factor out what all terms share (a0·s - s = s·(a0 - 1)) so that inverses of products split
+	if common, rest, ok := commonFactor(a); ok {
+		return Mul(PowInt(common, k), PowInt(rest, k))
+	}
 	// canonical sign for denominators: leading coefficient positive
 	lead := a.terms[0].c
 	if lead.Sign() < 0 {
@@ -456,6 +460,54 @@ func PowInt(a Expr, k int) Expr {
 	return atomPow(&Atom{Kind: ASum, Args: []Expr{a}}, k)
 }
 
+// commonFactor splits a multi-term sum into (monomial shared by all terms) × (remaining sum).
+func commonFactor(a Expr) (common Expr, rest Expr, ok bool) {
+	if len(a.terms) < 2 {
+		return Expr{}, Expr{}, false
+	}
+	minExp := map[string]int{}
+	atoms := map[string]*Atom{}
+	for i, t := range a.terms {
+		seen := map[string]int{}
+		for _, f := range t.f {
+			seen[f.a.Key()] = f.e
+			atoms[f.a.Key()] = f.a
+		}
+		if i == 0 {
+			for k, e := range seen {
+				minExp[k] = e
+			}
+			continue
+		}
+		for k, e0 := range minExp {
+			e1, has := seen[k]
+			if !has || (e0 > 0) != (e1 > 0) {
+				delete(minExp, k)
+				continue
+			}
+			if e0 > 0 && e1 < e0 {
+				minExp[k] = e1
+			}
+			if e0 < 0 && e1 > e0 {
+				minExp[k] = e1
+			}
+		}
+	}
+	if len(minExp) == 0 {
+		return Expr{}, Expr{}, false
+	}
+	common = NumI(1)
+	for k, e := range minExp {
+		common = Mul(common, atomPow(atoms[k], e))
+	}
+	inv := PowInt(common, -1)
+	rest = Mul(a, inv)
+	if len(rest.terms) < 1 {
+		return Expr{}, Expr{}, false
+	}
+	return common, rest, true
+}
+
 func atomPow(a *Atom, k int) Expr {
 	return Expr{terms: []term{{c: big.NewRat(1, 1), f: []fac{{a, k}}}}}
 }
@@ -467,9 +519,6 @@ func PowE(a Expr, e Expr) Expr {
 		if k >= -64 && k <= 64 {
 			return PowInt(a, int(k))
 		}
-	}
-	if r, ok := e.Const(); ok && r.Cmp(big.NewRat(1, 2)) == 0 {
-		return FnE("sqrt", a)
 	}
 	return atomExpr(&Atom{Kind: APow, Args: []Expr{a, e}})
 }
